@@ -129,6 +129,11 @@ func vpTemplate(k int) []byte {
 			return []byte{'\'', s[0], s[1], '\'', ';'}
 		case 11:
 			return []byte{'(', s[0], ',', '\'', s[1], '\'', ')', s[2], ';'}
+		case 13:
+			// concrete branch lengths (negative, exponent form, zero) around
+			// symbolic names: these go through the real ParseFloat and
+			// FormatFloat, natively too
+			return []byte("(" + string(s[0:1]) + ":-2.5," + string(s[1:2]) + ":1e-3,x:0)r:-0.25;")
 		}
 		return []byte{'(', '\'', s[0], '\'', '\'', s[1], '\'', ':', '1', ')', ';', s[2]}
 	}
